@@ -1,10 +1,11 @@
 // Copy of cmd/c12/rfc3986.go (independent string-level RFC 3986 section 5.2 resolver), used by the C09
 // generator to compute the IRI a written reference is meant to denote.
 package main
+
 import "strings"
 
 type parts struct {
-	scheme, authority, path, query, fragment string
+	scheme, authority, path, query, fragment       string
 	hasScheme, hasAuthority, hasQuery, hasFragment bool
 }
 
